@@ -18,7 +18,7 @@ def op_strategy(focus, pool):
     ti = st.integers(0, 11)
     wi = st.integers(-NW, -1)
     own = _w([(3, ti), (2, wi)]) if focus != 'membership' else _w([(2, ti), (3, wi)])
-    foreign = st.sampled_from(['F:id', 'F:str', 'F:wbs', 'F:obj', 'F:dict'])
+    foreign = st.sampled_from(['F:id', 'F:str', 'F:wbs', 'F:obj', 'F:dict', 'F:tasks', 'F:kids', 'F:tasks', 'F:kids'])
     elem = _w([(16, ti), (2, st.none()), (1, foreign)])
     tif = _w([(15, ti), (1, foreign)])          # single argument: now and then something that is not a task
     index = _w([(6, st.integers(-1, 4)), (1, st.sampled_from([1.0, 0.0, 0.5, 2.0, 1.5, None, '1']))])
@@ -66,11 +66,13 @@ def op_strategy(focus, pool):
         T(J('rshift'), ti, seq, flag_any),
         T(J('list_lshift'), own, seq, flag_any),
         T(J('list_rshift'), own, seq, flag_any),
+        T(J('dep_lshift'), ti, st.sampled_from(['preds', 'succs']), seq, flag_any),
+        T(J('dep_rshift'), ti, st.sampled_from(['preds', 'succs']), seq, flag_any),
     ]
     H = dict(zip(['set_parent', 'set_children', 'append', 'adopt_children', 'insert', 'remove', 'move', 'sort', 'reorder',
                   'remove_all', 'floordiv', 'bulk_parent', 'wbs_remove', 'wbs_remove_all', 'new_task'], hier))
     D = dict(zip(['set_preds', 'set_succs', 'pred_append', 'pred_remove', 'succ_append', 'succ_remove',
-                  'pred_remove_all', 'succ_remove_all', 'lshift', 'rshift', 'list_lshift', 'list_rshift'], deps))
+                  'pred_remove_all', 'succ_remove_all', 'lshift', 'rshift', 'list_lshift', 'list_rshift', 'dep_lshift', 'dep_rshift'], deps))
     late_ops = [
         T(J('set_children'), own, seq2, form, J('J')),
         T(J('floordiv'), own, seq2, J('J')),
@@ -87,7 +89,7 @@ def op_strategy(focus, pool):
              (1, H['bulk_parent']), (1, H['wbs_remove']), (1, H['wbs_remove_all']), (1, H['new_task']),
              (3, D['set_preds']), (3, D['set_succs']), (2, D['pred_append']), (1, D['pred_remove']),
              (2, D['succ_append']), (1, D['succ_remove']), (1, D['pred_remove_all']), (1, D['succ_remove_all']),
-             (2, D['lshift']), (2, D['rshift']), (1, D['list_lshift']), (1, D['list_rshift'])]
+             (2, D['lshift']), (2, D['rshift']), (1, D['list_lshift']), (1, D['list_rshift']), (1, D['dep_lshift']), (1, D['dep_rshift'])]
     elif focus == 'collide':
         W = [(5, H['set_parent']), (5, H['set_children']), (6, H['append']), (1, H['adopt_children']), (4, H['insert']), (1, H['remove']),
              (1, H['move']), (3, H['floordiv']), (2, H['bulk_parent']), (1, H['wbs_remove']), (3, H['new_task']),
@@ -101,14 +103,14 @@ def op_strategy(focus, pool):
              (5, H['move']), (3, H['sort']), (3, H['reorder']), (1, H['remove_all']), (1, H['floordiv']),
              (3, H['bulk_parent']), (1, H['wbs_remove']),
              (2, D['set_preds']), (2, D['set_succs']), (1, D['pred_append']), (1, D['succ_append']),
-             (2, D['list_lshift']), (2, D['list_rshift'])] + [(2, o) for o in late_ops]
+             (2, D['list_lshift']), (2, D['list_rshift']), (1, D['dep_lshift']), (1, D['dep_rshift'])] + [(2, o) for o in late_ops]
     elif focus == 'legal':
         W = [(3, H['set_parent']), (3, H['set_children']), (3, H['append']), (1, H['adopt_children']), (4, H['insert']), (2, H['remove']),
              (4, H['move']), (3, H['sort']), (3, H['reorder']), (2, H['remove_all']), (2, H['floordiv']),
              (1, H['bulk_parent']), (2, H['wbs_remove']), (1, H['wbs_remove_all']), (1, H['new_task']),
              (2, D['set_preds']), (2, D['set_succs']), (2, D['pred_append']), (2, D['pred_remove']),
              (2, D['succ_append']), (2, D['succ_remove']), (1, D['pred_remove_all']), (1, D['succ_remove_all']),
-             (1, D['lshift']), (1, D['rshift']), (1, D['list_lshift']), (1, D['list_rshift'])]
+             (1, D['lshift']), (1, D['rshift']), (1, D['list_lshift']), (1, D['list_rshift']), (2, D['dep_lshift']), (2, D['dep_rshift'])]
     else:
         raise AssertionError(focus)
     return _w(W)
@@ -207,12 +209,13 @@ SHAPES = {
     'wbs-with-two-branches': [('append', -1, 0, ''), ('append', 0, 2, ''), ('append', -1, 1, '')],
     'flat-roots-with-name-ties': [('append', -1, 1, ''), ('append', -1, 0, ''), ('append', -1, 2, ''), ('append', -1, 3, '')],
     'children-with-name-ties': [('append', 1, 0, ''), ('append', 1, 2, ''), ('append', 1, 3, '')],
+    'fan-out-links': [('append', -1, 0, ''), ('succ_append', 0, 1, ''), ('succ_append', 0, 2, ''), ('succ_append', 0, 3, ''), ('pred_append', 3, 2, '')],
 }
 
 
 # shapes whose point is a link / hierarchy conflict use pairwise distinct ids (no id clash masks the conflict)
 SHAPE_IDS = {'detached-chain-linked-leaf': [1, 2, 3, 4], 'linked-grandchild': [1, 2, 3, 4],
-             'flat-roots-with-name-ties': [1, 2, 3, 4], 'children-with-name-ties': [1, 2, 3, 4]}
+             'flat-roots-with-name-ties': [1, 2, 3, 4], 'children-with-name-ties': [1, 2, 3, 4], 'fan-out-links': [1, 2, 3, 4]}
 
 
 def small_alphabet(reduced=True):
@@ -268,9 +271,14 @@ def small_alphabet(reduced=True):
             ops.append(('list_rshift', o, s, ''))
         for p in (None, 0, 2):
             ops.append(('bulk_parent', o, [1, 2], p, ''))
+    for t in ts:
+        for which in ('preds', 'succs'):
+            for x in ts:
+                ops.append(('dep_lshift', t, which, [x], ''))
+                ops.append(('dep_rshift', t, which, [x], ''))
     # arguments that are not tasks, indexes that are not integers
     for t in ts:
-        for f in ('F:id', 'F:wbs'):
+        for f in ('F:id', 'F:wbs', 'F:tasks', 'F:kids'):
             for s in ([f], [(t + 1) % 4, f], [f, (t + 1) % 4]):
                 ops.append(('set_preds', t, s, 'list', ''))
                 ops.append(('set_succs', t, s, 'list', ''))
@@ -364,7 +372,7 @@ def view_histories():
 def small_histories(length, reduced=True, tiny=False):
     alpha = tiny_alphabet() if tiny else small_alphabet(reduced)
     for name, shape in SHAPES.items():
-        if tiny and name in ('flat-roots-with-name-ties', 'children-with-name-ties', 'linked-pair'):
+        if tiny and name in ('flat-roots-with-name-ties', 'children-with-name-ties', 'linked-pair', 'fan-out-links'):
             continue        # the sort / link shapes add nothing to the hierarchy-only 2-step enumeration
         for combo in itertools.product(alpha, repeat=length):
             for held in (True,):      # held mode alternates kept and fresh list objects, so it covers both
